@@ -1,0 +1,16 @@
+//go:build verif
+
+package shrinker
+
+// VerifNThread returns the number of running shrinker threads.
+func (shrinkst *ShrinkerSt) VerifNThread() uint32 {
+	shrinkst.mu.Lock()
+	n := shrinkst.nthread
+	shrinkst.mu.Unlock()
+	return n
+}
+
+// VerifWaitIdle blocks until no shrinker thread is running.
+func (shrinkst *ShrinkerSt) VerifWaitIdle() {
+	shrinkst.Shutdown()
+}
